@@ -121,11 +121,34 @@ def build_select(chk):
         return orig_ks(X, cdf, *a, **k)
     mod.env.vars['kstest'] = kstest
 
+    # the invariant talks about two loop-carried locals by ROLE, not by name: in the loop body, the `if a < b:` whose body
+    # assigns `b = a` identifies the running minimum b (and a); the other assignment in that `if` is the running argmin
+    import ast as _ast
+    fnode = I.resolve(SEL).node
+    names = {'best_ks': 'best_ks', 'best_model': 'best_model', 'ks': 'ks', 'instance': 'instance'}
+    for n_ in _ast.walk(fnode):
+        if isinstance(n_, _ast.If) and isinstance(n_.test, _ast.Compare) and len(n_.test.ops) == 1 and \
+                isinstance(n_.test.ops[0], _ast.Lt) and isinstance(n_.test.left, _ast.Name) and \
+                isinstance(n_.test.comparators[0], _ast.Name):
+            a_, b_ = n_.test.left.id, n_.test.comparators[0].id
+            asg = [x for x in n_.body if isinstance(x, _ast.Assign) and len(x.targets) == 1 and isinstance(x.targets[0], _ast.Name)]
+            if any(x.targets[0].id == b_ and isinstance(x.value, _ast.Name) and x.value.id == a_ for x in asg):
+                other = [x for x in asg if x.targets[0].id != b_]
+                names.update({'best_ks': b_, 'ks': a_})
+                if other:
+                    names['best_model'] = other[0].targets[0].id
+    for n_ in _ast.walk(fnode):
+        if isinstance(n_, _ast.Assign) and isinstance(n_.value, _ast.Call) and isinstance(n_.value.func, _ast.Name) and \
+                n_.value.func.id == 'get_instance' and isinstance(n_.targets[0], _ast.Name) and \
+                any(isinstance(p_, _ast.For) and n_ in _ast.walk(p_) for p_ in _ast.walk(fnode)):
+            names['instance'] = n_.targets[0].id
+    BK, BM = names['best_ks'], names['best_model']
+
     def inv(view):
         c = view.cur
         it, bk = view.ghost['it'], view.ghost['bk']
-        bks = c['best_ks'].t if isinstance(c['best_ks'], Sym) else ir.const(c['best_ks'])
-        bm = c['best_model']
+        bks = c[BK].t if isinstance(c[BK], Sym) else ir.const(c[BK])
+        bm = c[BM]
         bm_idx = bm.idx if isinstance(bm, CandRef) else ir.const(-1)
         return [ir.ge(bk, -1), ir.lt(bk, it), ir.eq(bm_idx, bk),
                 ir.implies(ir.eq(bk, -1), ir.eq(bks, ir.INF)),
@@ -139,9 +162,9 @@ def build_select(chk):
         return [{'bk': view.ghost['bk']}, {'bk': view.ghost['it']}]
     I.loop_invs[(SEL, 0)] = LoopInv('C05.select_univariate.inv', inv, ghost_init=ghost_init, ghost_step=ghost_step,
                                     ghost_sorts={'bk': 'I'},
-                                    havoc={'best_model': lambda c: CandRef(c.fresh('h_best_model', 'I')),
-                                           'best_ks': lambda c: Sym(c.fresh('h_best_ks')),
-                                           'instance': lambda c: None, 'ks': lambda c: Sym(c.fresh('h_ks')),
+                                    havoc={BM: lambda c: CandRef(c.fresh('h_best_model', 'I')),
+                                           BK: lambda c: Sym(c.fresh('h_best_ks')),
+                                           names['instance']: lambda c: None, names['ks']: lambda c: Sym(c.fresh('h_ks')),
                                            '_': lambda c: None})
 
     def body(c):
